@@ -1,5 +1,10 @@
 package props
 
-import "context"
+import (
+	"context"
+	"os"
+)
 
 var bgctx = context.Background()
+
+func gomaxprocs() string { return os.Getenv("GOMAXPROCS") }
